@@ -23,7 +23,7 @@ ASSUMPTIONS = [
 ]
 MANIFEST = {'text': 'proof (all normal paths) that the command handler sends exactly one text reply per command and that `close` only leaves its drain loop when the pipeline is disconnected and joins all threads; '
                     'plus a deviance rule (level other) that no parse/split result of request text is unwrapped unguarded in the handler cone.'
-                    ' Added: integers parsed from the request reach allocation sizes, slice indices/range bounds and checked multiplications only behind a bound (taint rule with helper summaries). Added: eagerly evaluated defaults (unwrap_or / map_or / then_some) in the remote module contain no panic-capable operation. Added: text is sliced by byte offsets only at offsets obtained from the text itself (find / char_indices / len). Added: unsigned subtractions that involve a stream window bound (client state, changeable at any time by stream_change_window) are discharged by a dominating comparison / clamp. Added: close joins no pipeline thread before the drain loop has seen Disconnected.'}
+                    ' Added: integers parsed from the request reach allocation sizes, slice indices/range bounds and checked multiplications only behind a bound (taint rule with helper summaries). Added: eagerly evaluated defaults (unwrap_or / map_or / then_some) in the remote module contain no panic-capable operation. Added: text is sliced by byte offsets only at offsets obtained from the text itself (find / char_indices / len). Added: unsigned subtractions that involve a stream window bound (client state, changeable at any time by stream_change_window) are discharged by a dominating comparison / clamp. Added: close joins no pipeline thread before the drain loop has seen Disconnected. Added: the sender sends everything processed in the same round (shared with C16 G5), the premise of the one-pass drain. Added: process_file_context constructs an Err (which ends the connection) only under the error arm of the extraction poll.'}
 
 TEXT_VARIANT = 'Message::Text'
 PARSE_LIKE = re.compile(r'(split_once|rsplit_once|::parse|from_str|::get\b|::nth\b|strip_prefix|strip_suffix|::find\b|::position\b|as_u64|as_i64|as_str|as_array|as_object|as_bool|'
@@ -123,6 +123,11 @@ def run(F, chk):
     check_eager_defaults(F, R6)
     R7 = chk.rule('R7', 'remote module: text is sliced by byte offsets only at offsets that come from the text itself (find / char_indices / len), never at a fixed or foreign number')
     check_str_slicing(F, R7)
+    R10 = chk.rule('R10', 'the server loop function process_file_context ends the connection (returns Err) only for a failed websocket write or a failed archive extraction: every locally constructed Err lies under the Err arm of the extraction poll')
+    check_loop_errors(F, R10)
+    R9 = chk.rule('R9', 'sender loop: everything that was processed is sent in the same round (new_end = min(stream length, window end), stored on all paths): the one-pass drain removes what was processed, a message left unsent would be indexed below the drained prefix in the next round (index panic in the connection thread); shared with C16 G5')
+    import c16
+    c16.check_progress(F, R9)
     R8 = chk.rule('R8', 'remote module: an unsigned subtraction that involves a stream window bound (msgs_to_send, set by stream / query / stream_change_window requests) is discharged by a dominating comparison, clamp or bounded form')
     check_window_subtractions(F, R8)
     hs = find_handler(F)
@@ -693,6 +698,45 @@ def check_eager_defaults(F, R6):
 # R7: str slicing at character boundaries
 
 BOUNDARY_SRC = re.compile(r'(str::<impl str>::(len|find|rfind|char_indices|match_indices|rmatch_indices|floor_char_boundary|ceil_char_boundary|is_char_boundary)|String::len|Iterator::position)$')
+
+
+def check_loop_errors(F, R10):
+    """An Err out of process_file_context makes the connection loop break: the socket is dropped without closing handshake and
+    every later command stays unanswered.  That is right when the peer is gone (a websocket write failed: propagated by `?`)
+    or the extraction of the opened archive failed.  Any other condition reported that way - "no files found", a full queue -
+    turns an ordinary situation into a dead connection after the command was acknowledged."""
+    b = F.get('adlt_bin::remote::process_file_context')
+    if b is None:
+        R10.violation(('anchor-lost', 'process_file_context'), 'process_file_context not found')
+        return
+    R10.fn(b.path)
+    cfg = CFG(b)
+    E = ExprBuilder(cfg, fold_named=True)
+    n = 0
+    for blk in b.blocks:
+        if blk.cleanup:
+            continue
+        for s_ in blk.stmts:
+            if s_.k == 'assign' and s_.place.is_local and s_.place.l == 0 and not s_.place.p and s_.rv['k'] == 'agg' and s_.rv.get('variant') == 'Err':
+                n += 1
+                R10.sites += 1
+                ok = False
+                for (c, truth, D) in guards.known(cfg, E, blk.i):
+                    sc = show(c)
+                    if sc.startswith('discr(') and '::poll(' in sc and 'pending_extract' in sc and isinstance(truth, tuple) and truth[0] == 'eq':
+                        # the arm must be the error arm of the poll result (variant named Err / Error / Failed)
+                        for ap, a in F.adts.items():
+                            if ap.endswith('ProgressPoll') and a.get('enum'):
+                                vs = a['variants']
+                                for i_, v_ in enumerate(vs):
+                                    dv = v_.get('d') if v_.get('d') is not None else i_
+                                    if dv == truth[1] and re.match(r'^(Err|Error|Failed|Failure)$', v_['n']):
+                                        ok = True
+                if ok:
+                    R10.ok(sample={'err_return_at': b.loc(s_.sp), 'under': 'error arm of the extraction poll'})
+                else:
+                    R10.violation(('connection-ended-for-a-non-error', b.path), 'process_file_context constructs an Err at %s outside the failed-extraction arm: the connection loop breaks on it, the socket is dropped and later commands get no reply' % b.loc(s_.sp), where=b.loc(s_.sp))
+    R10.floor('locally constructed Err returns of process_file_context', n, 1)
 
 
 def check_window_subtractions(F, R8):
